@@ -52,9 +52,24 @@ type Profile struct {
 	// name, whose expression selects the replaced rule) this produces HEAD rules
 	// sitting exactly on the lines a removed rule had at the fork point.
 	AdjacentDupOneIn int
+	// Allowed != nil: the case runs under a parser include/exclude filter; file
+	// renames then prefer (1 in 2) a target on the other side of the filter boundary.
+	Allowed func(path string) bool
+	// NoMoveOut (with Allowed): never rename a file from an allowed path to a path
+	// outside the filter (exclusion by construction of a listed finding's class).
+	NoMoveOut bool
+	// NoFileDir: never use the path "alerts" (a file whose name is also a directory in the
+	// pool), so no file is ever replaced by a directory of the same name or the reverse.
+	NoFileDir bool
 }
 
-var pathPool = []string{"rules/a.yml", "rules/b.yml", "rules/c.yml", "rules/d.yml", "rules/sub/e.yml", "rules/sub/f.yml", "top.yml", "alerts/g.yaml"}
+// "alerts" (a rule file without extension) and "alerts/g.yaml" exclude each other: a file
+// deleted in one commit and a directory of that name created in a later one (and the reverse).
+var pathPool = []string{"rules/a.yml", "rules/b.yml", "rules/c.yml", "rules/d.yml", "rules/sub/e.yml", "rules/sub/f.yml", "top.yml", "alerts/g.yaml", "alerts"}
+
+func pathsConflict(a, b string) bool {
+	return strings.HasPrefix(a, b+"/") || strings.HasPrefix(b, a+"/")
+}
 
 var (
 	labelKeys   = []string{"team", "severity", "env"}
@@ -108,7 +123,19 @@ func (s *gstate) paths() []string {
 func (s *gstate) freePaths() []string {
 	var out []string
 	for _, p := range pathPool {
-		if _, ok := s.tree[p]; !ok {
+		if _, ok := s.tree[p]; ok {
+			continue
+		}
+		if s.p.NoFileDir && p == "alerts" {
+			continue
+		}
+		clash := false
+		for q := range s.tree {
+			if pathsConflict(p, q) {
+				clash = true
+			}
+		}
+		if !clash {
 			out = append(out, p)
 		}
 	}
@@ -563,7 +590,13 @@ func (s *gstate) editOp(kind string, fork Tree) bool {
 		for _, ff := range fork {
 			cur, ok := s.tree[ff.Path]
 			if !ok {
-				if !s.deleted {
+				clash := false
+				for q := range s.tree {
+					if pathsConflict(ff.Path, q) {
+						clash = true
+					}
+				}
+				if !s.deleted && !clash {
 					cands = append(cands, ff)
 				}
 				continue
@@ -775,7 +808,14 @@ func Gen(t *rapid.T, p Profile) History {
 	nf := s.intn("nfiles", 1, max(1, p.MaxBaseFiles))
 	for i := 0; i < nf; i++ {
 		free := s.freePaths()
-		path := free[s.intn("path", 0, min(len(free)-1, 4))]
+		hi := min(len(free)-1, 4)
+		if s.chance("anypath", 5) {
+			hi = len(free) - 1
+		}
+		path := free[s.intn("path", 0, hi)]
+		if i == 0 && p.Weights["file-dir"] > 0 && !p.NoFileDir && s.chance("filedirbase", 3) {
+			path = []string{"alerts", "alerts/g.yaml"}[s.intn("which", 0, 1)]
+		}
 		s.tree[path] = s.genFile(p.MaxRulesPerFile)
 	}
 	h.Base = append(h.Base, Commit{Msg: "initial rules", Tree: s.snapshot()})
@@ -806,10 +846,44 @@ func Gen(t *rapid.T, p Profile) History {
 			break
 		}
 		kind := s.weighted("ckind", map[string]int{
-			"rename": p.Weights["rename"], "rename-edit": p.Weights["rename-edit"], "trim": p.Weights["rule-trim"], "edit": 10,
+			"rename": p.Weights["rename"], "rename-edit": p.Weights["rename-edit"], "trim": p.Weights["rule-trim"],
+			"file-dir": p.Weights["file-dir"], "edit": 10,
 		}, nil)
 		msg := fmt.Sprintf("branch commit %d", ci+1)
 		switch kind {
+		case "file-dir":
+			// a file is deleted and, in the next commit, a directory of the same name appears
+			// with a rule file in it (or the reverse: directory emptied, file of that name created)
+			var from, to string
+			for _, pth := range s.paths() {
+				for _, q := range pathPool {
+					if pathsConflict(pth, q) {
+						from, to = pth, q
+					}
+				}
+			}
+			clash := false
+			for q := range s.tree {
+				if q != from && to != "" && pathsConflict(to, q) {
+					clash = true
+				}
+			}
+			if from == "" || clash || len(s.tree) < 2 || p.NoFileDir {
+				h.Branch = append(h.Branch, s.editCommit(p.Weights, fork, msg))
+				continue
+			}
+			s.ops = nil
+			delete(s.tree, from)
+			s.log("file-del %s", from)
+			h.Branch = append(h.Branch, Commit{Msg: msg + " (delete)", Ops: s.ops, Tree: s.snapshot()})
+			s.ops = nil
+			s.tree[to] = s.genFile(3)
+			what := "file-to-dir"
+			if len(to) < len(from) {
+				what = "dir-to-file"
+			}
+			s.log("%s %s replaces %s", what, to, from)
+			h.Branch = append(h.Branch, Commit{Msg: msg + " (create)", Ops: s.ops, Tree: s.snapshot()})
 		case "trim":
 			s.ops = nil
 			if s.trim() {
@@ -846,6 +920,30 @@ func Gen(t *rapid.T, p Profile) History {
 			}
 			if len(reuse) > 0 && s.chance("reuse", 2) {
 				free = reuse
+			}
+			if s.p.Allowed != nil && s.p.NoMoveOut && s.p.Allowed(from) {
+				var in []string
+				for _, fp := range free {
+					if s.p.Allowed(fp) {
+						in = append(in, fp)
+					}
+				}
+				if len(in) == 0 {
+					h.Branch = append(h.Branch, s.editCommit(p.Weights, fork, msg))
+					continue
+				}
+				free = in
+			}
+			if s.p.Allowed != nil && s.chance("cross", 2) {
+				var other []string
+				for _, fp := range free {
+					if s.p.Allowed(fp) != s.p.Allowed(from) {
+						other = append(other, fp)
+					}
+				}
+				if len(other) > 0 {
+					free = other
+				}
 			}
 			to := free[s.intn("to", 0, len(free)-1)]
 			s.ops = nil
@@ -919,7 +1017,15 @@ func (s *gstate) chain() []Commit {
 			w["revert"] = 8
 		}
 		if _, taken := s.tree[start]; cur != start && !taken {
-			w["rename-back"] = 4
+			clash := false
+			for q := range s.tree {
+				if q != cur && pathsConflict(start, q) {
+					clash = true
+				}
+			}
+			if !clash {
+				w["rename-back"] = 4
+			}
 		}
 		if len(s.tree) >= 2 {
 			w["del-readd"] = 2
@@ -930,6 +1036,18 @@ func (s *gstate) chain() []Commit {
 		switch s.weighted("chainop", w, nil) {
 		case "rename":
 			free := s.freePaths()
+			if s.p.Allowed != nil && s.p.NoMoveOut && s.p.Allowed(cur) {
+				var in []string
+				for _, fp := range free {
+					if s.p.Allowed(fp) {
+						in = append(in, fp)
+					}
+				}
+				if len(in) == 0 {
+					continue
+				}
+				free = in
+			}
 			to := free[s.intn("to", 0, len(free)-1)]
 			s.tree[to] = s.tree[cur]
 			delete(s.tree, cur)
